@@ -335,9 +335,26 @@ func (index *collectionSimpleIndex) Save(
 ) error {
 	txn := datastore.CtxMustGetTxn(ctx)
 
-	return index.generateKeysAndProcess(ctx, doc, true, func(key keys.IndexDataStoreKey) error {
+	return index.generateKeysAndProcess(ctx, doc, true, oncePerKey(func(key keys.IndexDataStoreKey) error {
 		return txn.Datastore().Set(ctx, key.Bytes(), []byte{})
-	})
+	}))
+}
+
+// oncePerKey wraps a key handler so that it sees every distinct key only once.
+//
+// A document can yield the same key several times: the position of an element of a JSON array
+// is not part of the key, so equal elements share one. Such a key is one entry in the store; it
+// must be written and deleted once, a second delete would report a corrupted index.
+func oncePerKey(process func(keys.IndexDataStoreKey) error) func(keys.IndexDataStoreKey) error {
+	seen := make(map[string]struct{})
+	return func(key keys.IndexDataStoreKey) error {
+		keyBytes := string(key.Bytes())
+		if _, ok := seen[keyBytes]; ok {
+			return nil
+		}
+		seen[keyBytes] = struct{}{}
+		return process(key)
+	}
 }
 
 func (index *collectionSimpleIndex) Update(
@@ -356,9 +373,9 @@ func (index *collectionSimpleIndex) Delete(
 	ctx context.Context,
 	doc *client.Document,
 ) error {
-	return index.generateKeysAndProcess(ctx, doc, true, func(key keys.IndexDataStoreKey) error {
+	return index.generateKeysAndProcess(ctx, doc, true, oncePerKey(func(key keys.IndexDataStoreKey) error {
 		return index.deleteIndexKey(ctx, key)
-	})
+	}))
 }
 
 // hasIndexKeyNilField returns true if the index key has a field with nil value
